@@ -426,6 +426,8 @@ def op_set(step, ctx):
         if step['part'] == 'origin_reference':
             ev['origin'] = step['v']
             item.origin_reference = step['v']
+        elif step['part'] == 'dataset_name':
+            item.dataset_name = step['v']
         elif step['part'] == 'name':
             ev['name'] = cps(step['v'])
             item.name = step['v']
